@@ -1,6 +1,10 @@
 package transport
 
-import "github.com/gammazero/nexus/v3/wamp"
+import (
+	"time"
+
+	"github.com/gammazero/nexus/v3/wamp"
+)
 
 // C15 / C04: rawsocket length arithmetic, handshake and framing.
 
@@ -224,4 +228,42 @@ func Harness_C15_SendFrames() {
 	rs.Close()
 	vAssert("close-closes-connection", conn.closed)
 	vCover("send-done")
+}
+
+// A network peer whose remote end has stopped reading: the transport's Write
+// blocks (full send buffer). Close of the peer - which the router calls when
+// the session ends or the router shuts down - must still return.
+func Harness_C07_RawsocketCloseWithBlockedWriter() {
+	ser := &vSer{sizes: map[wamp.ID]int{1: 16, 2: 16}}
+	conn := vNewConn(nil, true)
+	conn.blockWrites = true
+	vGoroutineMark()
+	rs := newRawSocketPeer(conn, ser, vNopLog{}, 512, 512, 4)
+	n := vChoice("queued", 3)
+	for k := 1; k <= n; k++ {
+		rs.Send() <- &wamp.Publish{Request: wamp.ID(k)}
+	}
+	vQuiesce()
+	if n > 0 {
+		vAssert("writer-is-stuck-in-write", conn.inWrite)
+	}
+	done := make(chan struct{})
+	go func() {
+		rs.Close()
+		close(done)
+	}()
+	vQuiesce()
+	vAdvance(int64(10 * time.Second))
+	vQuiesce()
+	select {
+	case <-done:
+	default:
+		vAssert("close-returns-although-the-remote-end-does-not-read", false)
+		return
+	}
+	vAssert("connection-closed", conn.closed)
+	_, ok := <-rs.Recv()
+	vAssert("recv-channel-closed", !ok)
+	vAssert("no-goroutine-left", vGoroutinesSinceMark() <= 0)
+	vCover("blocked-writer-close-done")
 }
